@@ -99,7 +99,8 @@ def load(mir_path, src_root):
             lines = open(src_root + '/' + f.file).read().split('\n')
             hdr = ' '.join(lines[f.line - 1:f.line + 4])
             hm = re.match(r'\s*impl\s*(<[^{]*?>)?\s*(.*?)\s*(?:where|\{)', hdr)
-            h = hm.group(2) if hm else hdr
+            if not hm: f.impl = ('<derive>', hdr[:40]); continue
+            h = hm.group(2)
             if ' for ' in h: tr, ty = h.split(' for ', 1); f.impl = (tr.strip(), ty.strip())
             else: f.impl = (None, h.strip())
     return fns, consts, allocs
@@ -222,6 +223,8 @@ class Exec:
                     cands.append((exact, f))
             ex_ = [f for e, f in cands if e]
             cands = ex_ if ex_ else [f for e, f in cands]
+            if not cands:
+                cands = [f for f in self.fns if not f.impl and f.name.endswith('::' + tr + '::' + meth)]
         else:
             m = re.match(r'(.*)::(\w+)(?:::<.*>)?$', c)
             if not m: return None
@@ -251,6 +254,7 @@ class Exec:
             return fr['locals'][p[1]], ()
         if p[0] == 'deref':
             c, path = self.lval(st, fr, p[1]); r = get_path(st.store[c], path)
+            if is_expr(r): return st.new_cell(r), ()      # &str / &[u8] are modelled by value
             if r is None or r[0] != 'ref': raise Unsupported('deref of non-ref ' + str(r)[:80])
             return r[1], r[2]
         if p[0] == 'field':
@@ -269,6 +273,8 @@ class Exec:
         if s == '()': return UNIT
         m = re.match(r'(-?\d+)_(u|i)(size|8|16|32|64|128)$', s)
         if m: return IntVal(int(m.group(1)))
+        m = re.match(r"'(.)'$", s)
+        if m: return StringVal(m.group(1))
         m = re.match(r'"(.*)"$', s, re.S)
         if m: return StringVal(bytes(m.group(1), 'utf-8').decode('unicode_escape'))
         m = re.match(r'b"(.*)"$', s, re.S)
@@ -290,11 +296,15 @@ class Exec:
         if m: return err(adt(m.group(1), None))
         m = re.match(r'([A-Z]\w*)(::<.*>)?$', s)
         if m: return adt(m.group(1), None)
+        if re.match(r'[a-z_][\w]*(::\w+)+$', s): return ('extern_const', s)
         raise Unsupported('const: ' + s)
     def _prom_match(self, k, want, fr):
         # promoted[...] of the current function: same trailing `method::promoted[i]`
         return k.split('>::')[-1] == want.split('>::')[-1] and fr['fn'].method in k
     def eval_const_fn(self, st, f):
+        if len(f.blocks) > 1:
+            (s2, v), = self.run_sub(f, [], st)
+            st.store.update(s2.store); return v
         fr = {'fn': f, 'locals': {}, 'bb': 'bb0'}
         for line in f.blocks['bb0']:
             if line == 'return': break
@@ -502,14 +512,28 @@ class Exec:
     def bind_generics(self, f, callee):
         """map the impl's generic parameter names to the type arguments of this call (positional)"""
         sub = {}
-        mg = re.search(r'::\w+::<(.*)>$', callee)
+        mg = None; base = callee
+        if callee.endswith('>'):
+            d = 0
+            for i in range(len(callee) - 1, -1, -1):
+                if callee[i] == '>' and callee[i - 1:i] != '-': d += 1
+                elif callee[i] == '<':
+                    d -= 1
+                    if d == 0: break
+            if re.search(r'::\w+::$', callee[:i]): mg = re.match(r'(.*)$', callee[i + 1:-1], re.S); base = callee[:i - 2]
         if mg:
             impls = re.findall(r'_\d+: (impl [^,()]*(?:<[^()]*?>)?(?: \+ \w+)*)', f.sig)
             for name, ty in zip(impls, split_top(mg.group(1))): sub[name] = ty
-        if not f.impl: return sub
+        if not f.impl:
+            m = re.match(r'<(.*) as ([\w:]+)(?:<(.*)>)?>::\w+', callee)
+            if m:
+                sub['Self'] = m.group(1)
+                if m.group(3): sub['T'] = split_top(m.group(3))[0]
+                if mg: sub['B'] = split_top(mg.group(1))[0]
+            return sub
         ity = f.impl[1]
         m = re.match(r'<(.*) as .*>::\w+', callee)
-        cty = m.group(1) if m else re.sub(r'::\w+(::<.*>)?$', '', callee)
+        cty = m.group(1) if m else re.sub(r'::\w+$', '', base)
         cty = re.sub(r'^<impl (.*)>$', r'\1', cty.split('::<impl ')[-1]) if '<impl ' in cty else cty
         ia = re.search(r'<(.*)>', ity); ca = re.search(r'<(.*)>', cty.replace('::<', '<'))
         if not ia or not ca: return sub
